@@ -197,8 +197,8 @@ def real_shard(seed, n):
 def run(tier, seed):
     from vlib.shards import run_jobs
     from sim.run import run_sim
-    acc = run_sim(ID, tier, seed, 1500 if tier == "quick" else 20000)
-    nr = 32 if tier == "quick" else 320
+    acc = run_sim(ID, tier, seed, 1500 if tier == "quick" else 60000)
+    nr = 32 if tier == "quick" else 1280
     jobs = [{"module": "props.c19", "func": "pure_grid", "kwargs": {}}]
     jobs += [{"module": "props.c19", "func": "real_shard", "kwargs": {"seed": common.derive_seed(seed, ID, "r", i), "n": nr // 8}} for i in range(8)]
     a2, not_run = run_jobs(jobs, tag="c19", timeout_s=1500 if tier == "quick" else 7200)
